@@ -594,7 +594,7 @@ def decide(prop, tier="quick", seed=0):
             "functions_under_contract": fn_list,
             "samples": samples,
             "solver_time_ms": smt_ms,
-            "obligation_counting_rule": "per extracted function serving this property: number of requires/ensures/invariant/decreases clauses labelled with the property (or unlabelled in a function that serves it) + 1 for Verus' native body check (index bounds, unwrap, overflow, panic!, termination); plus labelled lemma/client lines. A clause counts as discharged when Verus reports no failure mapped to it.",
+            "obligation_counting_rule": "per extracted function serving this property: number of requires/ensures/invariant/decreases clauses labelled with the property (or unlabelled in a function that serves it -- by its own property list, or because a function that serves it calls it inside the unit: the lists are closed under 'is called by') + 1 for Verus' native body check (index bounds, unwrap, overflow, panic!, termination); plus labelled lemma/client lines. A clause counts as discharged when Verus reports no failure mapped to it.",
             "not_covered": pc.get("not_covered", []),
             "bounded_parts": bounded_results,
             "known_findings_reproduced": [k["what"] for k, _ in known_hits],
